@@ -74,7 +74,10 @@ Record LAARes (d1 : pdb) (dv : dview) (wal' : N) (added : list (N * fmeta)) (seq
               In (l, f) (ma_added (man_acc (dv_changes dv))) \/
               In (l, f) (map (fun p => (N.to_nat (fst p), snd p)) added);
   lr_ptr : Forall ptr_ok (ma_pointers (man_acc (dv_changes dv2)));
-  lr_man : dv_man dv2 = dv_man dv \/ dv_man dv2 = pd_manifest d1
+  lr_man : dv_man dv2 = dv_man dv \/ dv_man dv2 = pd_manifest d1;
+  lr_crash_cs : forall bsF0 Q0, CS (pd_img d1) dv bsF0 Q0 ->
+                CSE (pd_img d2) (bsF0 ++ log_batches (dv_logs dv)) ->
+                all_crash (fun i => CSE i (bsF0 ++ log_batches (dv_logs dv))) (pd_img d1) ops2
 }.
 
 (** * [log_and_apply] for a change that sets the log number and adds files *)
@@ -203,6 +206,8 @@ Proof.
     split; [exact Hnodup|]. intros l f Hin. apply in_app_or in Hin. exact Hin.
   - unfold dv2. cbn [dv_changes]. rewrite man_acc_snoc. exact Hptra.
   - left. reflexivity.
+  - intros bsF0 Q0 C0 Hafter. unfold op in *. cbn [d2 pd_img] in Hafter. unfold op in Hafter. rewrite Hm in *.
+    apply (crash_cs_manifest_append (pd_img d1) dv bsF0 Q0 file (pd_manifest_boff d1) _ _ C0 eq_refl Hfile Hlf Hafter).
 Qed.
 End LAA_OPEN.
 
@@ -358,39 +363,20 @@ Proof.
   - rewrite Eacc. cbn [accumulate ma_pointers vc_pointers c' fold_left macc_empty].
     apply fold_set_pointer_ok; [constructor|exact Hptrd].
   - right. reflexivity.
+  - intros bsF0 Q0 C0 Hafter.
+    assert (Ed2 : pd_img d2 = apply_fsop img5 (FsRename m)).
+    { unfold d2, ops, img5. cbn [pd_img]. rewrite apply_fsops_app. reflexivity. }
+    rewrite Ed2 in Hafter. unfold ops. apply all_crash_app.
+    + apply (all_crash_invisible_cs _ _ _ _ _ C0 laa_ops5_invisible).
+    + fold img5. apply all_crash_cons.
+      * exists dv, bsF0, Q0. split; [|reflexivity]. apply (CS_invisible_ops _ _ _ _ _ C0 laa_ops5_invisible).
+      * intros k. cbn [torn_fsop apply_fsops fold_left]. exact Hafter.
+      * apply all_crash_nil. exact Hafter.
 Qed.
 End LAA_CLOSED.
 End LAA.
 
-(** * The directory between two sessions *)
-Record CS (img : image) (dv : dview) (bsF : list batch) (Q : N) : Prop := mkCS {
-  cs_rec : Rec img dv bsF Q;
-  cs_manfile : exists file boff, lookupN (dv_man dv) (i_manifests img) = Some file /\
-                                 logfile file (map vchange_encode (dv_changes dv)) boff;
-  cs_logfiles : Forall (fun nb => exists f boff, lookupN (fst nb) (i_wals img) = Some f /\
-                                                logfile f (map batch_bytes (snd nb)) boff) (dv_logs dv);
-  cs_prev : ma_prev_wal (man_acc (dv_changes dv)) = None;
-  cs_next : dv_man dv <= dv_next dv /\ dv_wal dv <= dv_next dv;
-  cs_hist : NoDup (lvl_nums (ma_added (man_acc (dv_changes dv)))) /\
-            forall l f, In (l, f) (ma_added (man_acc (dv_changes dv))) ->
-              fm_num f <= dv_next dv /\ CodecProofs.fmeta_ok f = true /\ (l < NLEVELS)%nat;
-  cs_ptr : Forall ptr_ok (ma_pointers (man_acc (dv_changes dv)));
-  cs_seq : nops (bsF ++ log_batches (dv_logs dv)) < two64
-}.
-
-Lemma Inv_CS d dv bsF Q older bsM : Inv d dv bsF Q older bsM -> CS (pd_img d) dv bsF Q.
-Proof.
-  intros [R0 Hv Hm Ho Hvw Hp Hn Hwn Hmf Hlg Hlfs Hwf Hmem Himm Hseq Hh Hptr Hb].
-  constructor; try assumption.
-  - destruct Hmf as (file & Hl & Hlf). exists file, (pd_manifest_boff d). auto.
-  - rewrite Hlg. apply Forall_app. split; [exact Hlfs|]. constructor; [|constructor].
-    destruct Hwf as (f & Hl & Hlf). exists f, (pd_wal_boff d). auto.
-  - apply Hp.
-  - tauto.
-  - apply Hptr.
-  - rewrite <- Hseq. apply Hb.
-Qed.
-
+(** * The directory between two sessions: [CS] (ProtoSteps) *)
 Definition dv_init : dview := mkDV 1 [new_db_change] (repeat [] NLEVELS) 0 1 0 [].
 Definition img_init : image := apply_fsops empty_image init_ops.
 
@@ -416,7 +402,7 @@ Proof.
     + reflexivity.
     + cbn. lia.
     + cbn. lia.
-  - eexists _, _. split; [exact Hfile|exact Hlf].
+  - eexists. split; [exact Hfile|apply (tlog_logfile _ _ _ Hlf)].
   - constructor.
   - reflexivity.
   - cbn. lia.
@@ -492,29 +478,37 @@ Let file := file_of (dv_man dv) (i_manifests img1).
 Let R1 : Rec img1 dv bsF Q := cs_rec _ _ _ _ C.
 Let D1 : Durable img1 dv := rec_dur _ _ _ _ R1.
 
-Lemma oc_file : exists boff, lookupN (dv_man dv) (i_manifests img1) = Some file /\
-                             logfile file (map vchange_encode (dv_changes dv)) boff.
+Let mi := rx_intact (log_read_all_x file).
+Let li (nb : N * list batch) : bool := rx_intact (log_read_all_x (file_of (fst nb) (i_wals img1))).
+
+Lemma oc_file : lookupN (dv_man dv) (i_manifests img1) = Some file /\
+                tlog file (map vchange_encode (dv_changes dv)).
 Proof.
-  destruct (cs_manfile _ _ _ _ C) as (f & boff & Hl & Hlf). exists boff.
+  destruct (cs_manfile _ _ _ _ C) as (f & Hl & Hlf).
   unfold file, file_of.
   assert (Hl' : @lookupN (list N) (dv_man dv) (i_manifests img1) = Some f) by exact Hl.
   rewrite Hl'. split; [exact Hl|exact Hlf].
 Qed.
 
-Lemma oc_ms : ms_of img1 dv
-  = mkMS (dv_man dv) (dv_ver dv) (dv_wal dv) None (dv_next dv) (dv_seq dv) (ma_pointers a) true (blen file).
+Lemma oc_mi : mi = true -> exists boff, logfile file (map vchange_encode (dv_changes dv)) boff.
 Proof.
-  unfold ms_of. fold file. rewrite (cs_prev _ _ _ _ C).
-  destruct oc_file as (boff & _ & Hlf). rewrite (logfile_read _ _ _ Hlf). reflexivity.
+  destruct oc_file as (_ & i & Hr & Hi). unfold mi. rewrite Hr. cbn [rx_intact]. exact Hi.
 Qed.
 
-Lemma oc_wals : map (wr_of img1) (dv_logs dv) = map (fun nb => mkWR (fst nb) (snd nb) true) (dv_logs dv).
+Lemma oc_ms : ms_of img1 dv
+  = mkMS (dv_man dv) (dv_ver dv) (dv_wal dv) None (dv_next dv) (dv_seq dv) (ma_pointers a) mi (blen file).
+Proof. unfold ms_of. fold file. rewrite (cs_prev _ _ _ _ C). reflexivity. Qed.
+
+Lemma oc_wals : map (wr_of img1) (dv_logs dv) = map (fun nb => mkWR (fst nb) (snd nb) (li nb)) (dv_logs dv).
+Proof. reflexivity. Qed.
+
+Lemma oc_li nb : In nb (dv_logs dv) -> li nb = true ->
+  exists f boff, lookupN (fst nb) (i_wals img1) = Some f /\ logfile f (map batch_bytes (snd nb)) boff.
 Proof.
-  pose proof (cs_logfiles _ _ _ _ C) as H. apply map_ext_in. intros nb Hnb.
-  rewrite Forall_forall in H. destruct (H nb Hnb) as (f & boff & Hl & Hlf).
-  unfold wr_of, file_of.
+  intros Hnb Hli. pose proof (cs_logfiles _ _ _ _ C) as H. rewrite Forall_forall in H.
+  destruct (H nb Hnb) as (f & Hl & i & Hr & Hi). unfold li, file_of in Hli.
   assert (Hl' : @lookupN (list N) (fst nb) (i_wals img1) = Some f) by exact Hl.
-  rewrite Hl', (logfile_read _ _ _ Hlf). reflexivity.
+  rewrite Hl', Hr in Hli. cbn [rx_intact] in Hli. destruct (Hi Hli) as [boff Hf]. exists f, boff. auto.
 Qed.
 
 Lemma oc_seq : rc_seq (rc_of img1 dv) = nops acked.
@@ -541,7 +535,7 @@ Hypothesis Hreused :
   match reused with
   | None => kept = []
   | Some (n, boff) =>
-      exists bs, kept = [(n, bs)] /\ oo_reuse o = true /\
+      exists bs, kept = [(n, bs)] /\ oo_reuse o = true /\ li (n, bs) = true /\
         boff = (match lookupN n (i_wals img1) with Some f => blen f | None => 0 end) mod BLOCK_SIZE_BYTES
   end.
 
@@ -657,7 +651,10 @@ Qed.
 Lemma af_next2 : next1 <= next2.
 Proof. pose proof af_nx. unfold next2. destruct reused; lia. Qed.
 
-Let rm := true && oo_reuse o && (blen file <? oo_max_file_size o).
+Let rm := mi && oo_reuse o && (blen file <? oo_max_file_size o).
+
+Lemma af_rm_mi : rm = true -> mi = true.
+Proof. unfold rm. destruct mi; [reflexivity|discriminate]. Qed.
 Let ptrs := ma_pointers a.
 Let d1 := mkPD imgW (dv_ver dv) ptrs next2 (if rm then dv_man dv else next1) rm
                (blen file mod BLOCK_SIZE_BYTES) (dv_wal dv) None wal wal_boff (nops acked) mem None.
@@ -683,10 +680,10 @@ Qed.
 
 Lemma af_walfile : exists f, lookupN wal (i_wals imgW) = Some f /\ logfile f (map batch_bytes bsK) wal_boff.
 Proof.
-  pose proof af_walsR as HwR. pose proof (cs_logfiles _ _ _ _ C) as Hlf.
+  pose proof af_walsR as HwR. pose proof oc_li as Hlf.
   unfold imgW, wal_ops, wal, wal_boff, bsK. destruct reused as [[n bo]|]; cbn [apply_fsops fold_left].
-  - destruct Hreused as (bs & Hk & _ & Hbo). rewrite Hk, log_batches_single, HwR.
-    rewrite Forall_forall in Hlf. destruct (Hlf (n, bs)) as (f & boff & Hl & Hf).
+  - destruct Hreused as (bs & Hk & _ & Hli & Hbo). rewrite Hk, log_batches_single, HwR.
+    destruct (Hlf (n, bs)) as (f & boff & Hl & Hf); [|exact Hli|].
     { rewrite Hlogs, Hk. apply in_or_app. right. left. reflexivity. }
     cbn [fst snd] in Hl, Hf. exists f. split; [exact Hl|].
     match type of Hbo with context [match ?x with _ => _ end] =>
@@ -853,7 +850,7 @@ Proof.
   assert (Hfil' : filter (fun nb => wal <=? fst nb) (dv_logs dvW) = [(wal, bsK)]) by exact Hfil.
   rewrite <- Hfil'.
   destruct rm eqn:Erm.
-  - destruct oc_file as (boff & Hl & Hlf).
+  - destruct oc_file as (Hl & _). destruct (oc_mi (af_rm_mi Erm)) as (boff & Hlf).
     eexists _, _, _.
     apply (laa_open_res d1 dvW bsF Q RW eq_refl eq_refl (cs_prev _ _ _ _ C) (cs_ptr _ _ _ _ C)
              wal added (nops acked) v' Hedit Hvok Hnd HDT Hwg (log_batches flushed) Q Hsp Htok HQ Hs1 Hs2
@@ -934,7 +931,8 @@ Proof.
   - cbn [d1 pd_manifest_open]. exact Erm.
   - cbn [dvW set_logs dv_next dv_man dv_wal d1 pd_next]. unfold next1 in Hn2. lia.
   - intros n Hn. cbn [d1 pd_img pd_next] in *. apply af_walnamesW. exact Hn.
-  - destruct oc_file as (boff & Hl & Hlf). exists file. cbn [d1 pd_img pd_manifest_boff dvW set_logs dv_man dv_changes].
+  - destruct oc_file as (Hl & _). destruct (oc_mi (af_rm_mi Erm)) as (boff & Hlf).
+    exists file. cbn [d1 pd_img pd_manifest_boff dvW set_logs dv_man dv_changes].
     rewrite af_manifestsW. split; [exact Hl|apply (logfile_reopen _ _ _ Hlf)].
   - constructor.
   - cbn [d1 pd_seq dvW set_logs dv_logs]. rewrite af_logsW_batches. reflexivity.
@@ -945,17 +943,56 @@ Qed.
 Lemma af_ackedW : bsF ++ log_batches (dv_logs dvW) = acked.
 Proof. unfold dvW. cbn [set_logs dv_logs]. rewrite af_logsW_batches. reflexivity. Qed.
 
+Lemma af_csW : CS imgW dvW bsF Q.
+Proof.
+  pose proof af_recW as RW. pose proof af_manifestsW as HmW. pose proof oc_file as [Hl Htl].
+  pose proof (cs_logfiles _ _ _ _ C) as Hlf. pose proof af_walsR as HwR. pose proof af_names as Hnames.
+  constructor; cbn [dvW set_logs dv_man dv_changes dv_next dv_wal dv_logs].
+  - exact RW.
+  - exists file. rewrite HmW. split; [exact Hl|exact Htl].
+  - unfold logsW, wlog, imgW, wal_ops, next2. destruct reused as [[n bo]|]; cbn [apply_fsops fold_left].
+    + rewrite app_nil_r, HwR. exact Hlf.
+    + rewrite apply_wal_create. cbn [i_wals]. apply Forall_app. split.
+      * rewrite Forall_forall in *. intros nb Hnb. destruct (Hlf nb Hnb) as (f & Hlk & Ht). exists f. split; [|exact Ht].
+        rewrite lookupN_set_assoc. destruct (fst nb =? rs_next r + 1) eqn:E; [|rewrite HwR; exact Hlk].
+        apply N.eqb_eq in E. exfalso. assert (Hin : In (fst nb) (map fst (i_wals img1))).
+        { apply lookupN_in. rewrite Hlk. discriminate. }
+        apply Hnames in Hin. lia.
+      * constructor; [|constructor]. exists []. cbn [fst snd map]. rewrite lookupN_set_assoc, N.eqb_refl.
+        split; [reflexivity|apply (tlog_logfile _ _ 0); apply logfile_nil].
+  - apply (cs_prev _ _ _ _ C).
+  - apply (cs_next _ _ _ _ C).
+  - apply (cs_hist _ _ _ _ C).
+  - apply (cs_ptr _ _ _ _ C).
+  - rewrite af_logsW_batches. apply (cs_seq _ _ _ _ C).
+Qed.
+
+Lemma af_crashW_cs : all_crash (fun i => CSE i acked) img1 (rs_ops r ++ wal_ops).
+Proof.
+  apply all_crash_app.
+  - apply (all_crash_invisible_cs _ _ _ _ _ C (rsi_inv _ _ _ _ _ _ _ HRS)).
+  - fold imgR. pose proof af_csW as CW.
+    assert (GW : CSE (apply_fsops imgR wal_ops) acked).
+    { exists dvW, bsF, Q. split; [exact CW|]. unfold acked, dvW. cbn [set_logs dv_logs]. rewrite af_logsW_batches. reflexivity. }
+    assert (GR : CSE imgR acked).
+    { exists dv, bsF, Q. split; [|reflexivity]. apply (CS_invisible_ops _ _ _ _ _ C (rsi_inv _ _ _ _ _ _ _ HRS)). }
+    unfold wal_ops in *. destruct reused as [[n bo]|].
+    + apply all_crash_nil. exact GR.
+    + apply all_crash_cons; [exact GR| |apply all_crash_nil; exact GW].
+      intros k. cbn [torn_fsop]. exact GW.
+Qed.
+
 Lemma af_gc_S d2 dv2 : pd_ver d2 = dv_ver dv2 -> pd_vs_wal d2 = dv_wal dv2 -> pd_prev_wal d2 = None ->
   pd_manifest d2 = dv_man dv2 -> Forall (invisible dv2) (gc_ops d2).
 Proof. apply gc_invisible. Qed.
 
 Lemma af_main img0 ops0 d' ops :
   img1 = apply_fsops img0 ops0 ->
-  replay_logs o img1 (map (fun nb => mkWR (fst nb) (snd nb) true) (dv_logs dv))
+  replay_logs o img1 (map (fun nb => mkWR (fst nb) (snd nb) (li nb)) (dv_logs dv))
               (mkRS next1 [] (oo_cuts o) [] [] O false) = (r, reused) ->
   open_rest o img0 ops0 img1 (rc_of img1 dv) = Some (d', ops) ->
   exists opsR, ops = ops0 ++ opsR /\ pd_img d' = apply_fsops img1 opsR /\
-               InvE d' acked /\ all_crash (fun i => Good i acked) img1 opsR.
+               InvE d' acked /\ all_crash (fun i => CSE i acked) img1 opsR.
 Proof.
   intros Eimg Erl H. unfold open_rest in H.
   change (rc_manifest (rc_of img1 dv)) with (ms_of img1 dv) in H.
@@ -983,14 +1020,17 @@ Proof.
       * apply (Inv_invisible_ops _ d2); assumption.
       * destruct (lr_dv _ _ _ _ _ _ _ _ _ _ _ _ L) as (_ & _ & _ & _ & -> & _).
         rewrite log_batches_single. symmetry. apply af_acked.
-    + apply all_crash_app; [apply af_crashW|]. rewrite apply_fsops_app. fold imgR imgW.
+    + apply all_crash_app; [apply af_crashW_cs|]. rewrite apply_fsops_app. fold imgR imgW.
+      destruct (lr_dv _ _ _ _ _ _ _ _ _ _ _ _ L) as (_ & _ & _ & _ & El & _).
+      assert (Eack2 : (bsF ++ log_batches flushed) ++ log_batches (dv_logs dv2) = acked).
+      { rewrite El, log_batches_single. apply af_acked. }
+      assert (A2 : CSE (pd_img d2) acked).
+      { exists dv2, (bsF ++ log_batches flushed), Q. split; [apply (Inv_CS _ _ _ _ _ _ I2)|symmetry; exact Eack2]. }
       apply all_crash_app.
-      * pose proof (lr_crash _ _ _ _ _ _ _ _ _ _ _ _ L) as Hc. rewrite log_batches_single, af_acked in Hc. exact Hc.
+      * pose proof (lr_crash_cs _ _ _ _ _ _ _ _ _ _ _ _ L bsF Q af_csW) as Hc.
+        rewrite af_ackedW in Hc. apply Hc. exact A2.
       * pose proof (lr_img _ _ _ _ _ _ _ _ _ _ _ _ L) as Li. cbn [d1 pd_img] in Li. rewrite <- Li.
-        apply (all_crash_invisible _ dv2 (bsF ++ log_batches flushed) Q); [|apply (lr_rec _ _ _ _ _ _ _ _ _ _ _ _ L)|exact Hgc].
-        intros img' R'. pose proof (Rec_good _ _ _ _ R') as G.
-        destruct (lr_dv _ _ _ _ _ _ _ _ _ _ _ _ L) as (_ & _ & _ & _ & El & _).
-        rewrite El, log_batches_single, af_acked in G. exact G.
+        rewrite <- Eack2. apply (all_crash_invisible_cs _ dv2 _ Q _ (Inv_CS _ _ _ _ _ _ I2) Hgc).
   - (* the manifest is reused as it is *)
     apply orb_false_iff in Esnap. destruct Esnap as [Erm Hnf]. apply negb_false_iff in Erm.
     pose proof (af_inv_N Erm Hnf) as I2.
@@ -1003,9 +1043,8 @@ Proof.
     + exists dvW, bsF, Q, [], bsK. split.
       * apply (Inv_invisible_ops _ d1); assumption.
       * symmetry. apply af_ackedW.
-    + apply all_crash_app; [apply af_crashW|]. rewrite apply_fsops_app. fold imgR imgW. cbn [app].
-      apply (all_crash_invisible _ dvW bsF Q); [|apply af_recW|exact Hgc].
-      intros img' R'. pose proof (Rec_good _ _ _ _ R') as G. rewrite af_ackedW in G. exact G.
+    + apply all_crash_app; [apply af_crashW_cs|]. rewrite apply_fsops_app. fold imgR imgW. cbn [app].
+      rewrite <- af_ackedW. apply (all_crash_invisible_cs _ dvW bsF Q _ (Inv_CS _ _ _ _ _ _ I2) Hgc).
 Qed.
 End AFTER.
 End OPENCORE.
@@ -1030,19 +1069,20 @@ Theorem open_core o img0 ops0 dv bsF Q d' ops :
   pd_next d' < two64 ->
   exists opsR, ops = ops0 ++ opsR /\ pd_img d' = apply_fsops (apply_fsops img0 ops0) opsR /\
                InvE d' (bsF ++ log_batches (dv_logs dv)) /\
-               all_crash (fun i => Good i (bsF ++ log_batches (dv_logs dv))) (apply_fsops img0 ops0) opsR.
+               all_crash (fun i => CSE i (bsF ++ log_batches (dv_logs dv))) (apply_fsops img0 ops0) opsR.
 Proof.
   intros C Hs H Hb. set (img1 := apply_fsops img0 ops0) in *.
-  destruct (replay_logs o img1 (map (fun nb => mkWR (fst nb) (snd nb) true) (dv_logs dv))
+  set (li := fun nb : N * list batch => rx_intact (log_read_all_x (file_of (fst nb) (i_wals img1)))).
+  destruct (replay_logs o img1 (map (fun nb => mkWR (fst nb) (snd nb) (li nb)) (dv_logs dv))
                         (mkRS (dv_next dv + 1) [] (oo_cuts o) [] [] O false)) as [r reused] eqn:Erl.
-  destruct (replay_logs_spec img1 dv (dv_next dv + 1) o img1 (oc_fresh _ _ _ _ C) (dv_logs dv) _ [] r reused
+  destruct (replay_logs_spec_gen img1 dv (dv_next dv + 1) o img1 li (oc_fresh _ _ _ _ C) (dv_logs dv) _ [] r reused
               (RSInv_init img1 dv (dv_next dv + 1) (oo_sizes o) (oo_cuts o)) Erl)
     as (flushed & kept & Hlogs & HRS & Hnx & Hle & Hnm & Hreused).
   assert (Hb2 : match reused with Some _ => rs_next r | None => rs_next r + 1 end < two64).
   { rewrite <- (open_rest_next o img0 ops0 img1 (rc_of img1 dv) d' ops r reused); [exact Hb| |exact H].
     change (rc_wals (rc_of img1 dv)) with (map (wr_of img1) (dv_logs dv)).
     change (rc_manifest (rc_of img1 dv)) with (ms_of img1 dv).
-    rewrite (oc_wals _ _ _ _ C), (oc_ms _ _ _ _ C). exact Erl. }
+    rewrite (oc_ms _ _ _ _ C). exact Erl. }
   apply (af_main o img1 dv bsF Q C Hs r reused flushed kept Hlogs HRS Hle Hnm Hreused Hb2 img0 ops0 d' ops eq_refl Erl H).
 Qed.
 
@@ -1078,7 +1118,7 @@ Proof.
       as (opsR & -> & Himg & IE & Hcr).
     split; [rewrite apply_fsops_app; exact Himg|]. split; [exact IE|].
     apply all_crash_app; [apply init_crash|].
-    intros n torn Hn. right. apply (Hcr n torn Hn).
+    intros n torn Hn. right. apply CSE_good. apply (Hcr n torn Hn).
   - (* recovery *)
     pose proof (Inv_CS _ _ _ _ _ _ I) as C.
     destruct (rec_dur _ _ _ _ (cs_rec _ _ _ _ C)) as ((Hcur & _) & _).
@@ -1086,5 +1126,5 @@ Proof.
     rewrite (recover_durable _ _ (rec_dur _ _ _ _ (cs_rec _ _ _ _ C))) in Hop.
     destruct (open_core o (pd_img d) [] dv bsF Q d' ops C Hs Hop Hnx) as (opsR & -> & Himg & IE & Hcr).
     cbn [app apply_fsops fold_left] in *. split; [exact Himg|]. split; [exact IE|].
-    intros n torn Hn. right. apply (Hcr n torn Hn).
+    intros n torn Hn. right. apply CSE_good. apply (Hcr n torn Hn).
 Qed.
